@@ -11,7 +11,7 @@ ASSUMPTIONS = ["numpy on one row is the reference (np.cumsum / ufunc.accumulate 
                "values only; no NaN (numpy's own NaN conventions for sort/unique are outside the statement)",
                "cumsum on bool / float input is documented as rejected by the library: refusal or the right answer are both accepted"]
 REQUIRED_FEATURES = ["empty_row_first", "empty_row_last", "all_rows_empty", "zero_rows", "duplicates_across_row_boundary",
-                     "diff_order_exceeds_row", "unique_counts", "accumulate"]
+                     "diff_order_exceeds_row", "unique_counts", "accumulate", "same_object_sequence"]
 BOUNDS = {"quick": "LV(4,3) x {bool,int8,int64,uint8,uint64,float64} x 3 patterns x {cumsum (method, function), add/subtract/xor.accumulate, "
                    "sort (method), unique, unique+counts, diff n=0..4}; operand unchanged",
           "thorough": "LV(5,3) u LV(3,5), plus int16/int32/float32, diff n=0..6"}
@@ -50,27 +50,14 @@ def cases(shard, tier):
                 yield [lens, dt, k, op]
             for nd in range(nmax + 1):
                 yield [lens, dt, k, f"diff{nd}"]
+        if dt in ("int64", "uint8"):
+            # one object asked again and again (contiguous, and as a selection nothing has read yet)
+            yield [lens, dt, 0, "seq_contig"]
+            yield [lens, dt, 1, "seq_view"]
 
 
-def check(case, acc):
-    from npstructures import RaggedArray
-    lens, dt, k, op = case
-    n, size = len(lens), sum(lens)
-    if n == 0:
-        acc.feature("zero_rows")
-    else:
-        if lens[0] == 0:
-            acc.feature("empty_row_first")
-        if lens[-1] == 0:
-            acc.feature("empty_row_last")
-        if size == 0:
-            acc.feature("all_rows_empty")
-    flat = dsl.pattern(dt, size, k) if not isinstance(k, str) else np.array(BIG[k][:size], dtype=dt)
-    rows = dsl.split_rows(flat, lens)
-    for a, b in zip(rows, rows[1:]):
-        if len(a) and len(b) and a[-1] == b[0]:
-            acc.feature("duplicates_across_row_boundary")
-    ra = RaggedArray(flat.copy(), list(lens))
+def _op(acc, op, ra, dt, lens):
+    """-> (numpy reference for one row, call on the ragged array, refusal accepted?)"""
     lenient_refusal = False
     if op in ("cumsum_m", "cumsum_f", "cumsum_axis1"):
         ref = lambda r: np.cumsum(r)
@@ -116,6 +103,31 @@ def check(case, acc):
             acc.feature("diff_order_exceeds_row")
         ref = lambda r: np.diff(r, n=nd)
         call = lambda: np.diff(ra, n=nd, axis=-1)
+    return ref, call, lenient_refusal
+
+
+def check(case, acc):
+    from npstructures import RaggedArray
+    lens, dt, k, op = case
+    n, size = len(lens), sum(lens)
+    if n == 0:
+        acc.feature("zero_rows")
+    else:
+        if lens[0] == 0:
+            acc.feature("empty_row_first")
+        if lens[-1] == 0:
+            acc.feature("empty_row_last")
+        if size == 0:
+            acc.feature("all_rows_empty")
+    flat = dsl.pattern(dt, size, k) if not isinstance(k, str) else np.array(BIG[k][:size], dtype=dt)
+    rows = dsl.split_rows(flat, lens)
+    for a, b in zip(rows, rows[1:]):
+        if len(a) and len(b) and a[-1] == b[0]:
+            acc.feature("duplicates_across_row_boundary")
+    ra = RaggedArray(flat.copy(), list(lens))
+    if op.startswith("seq"):
+        return _check_seq(acc, case, flat, rows)
+    ref, call, lenient_refusal = _op(acc, op, ra, dt, lens)
     try:
         with np.errstate(all="ignore"):
             refs = [ref(flat[:0])] + [ref(r) for r in rows]
@@ -149,3 +161,40 @@ def _classify(op, lens):
     if op.endswith(".acc") and lens and lens[-1] == 0:
         return "c07.accumulate-trailing-empty-row"
     return None
+
+
+SEQ = ["sort_m", "unique", "cumsum_m", "diff1", "sort_m", "add.acc", "unique_c", "xor.acc", "cumsum_f", "diff2", "sort_default", "unique"]
+
+
+def _check_seq(acc, case, flat, rows):
+    """the operations one after the other on ONE object; none may disturb a later one (per-object caches, marks, in-place scratch)"""
+    from npstructures import RaggedArray
+    lens, dt, k, op = case
+    acc.feature("same_object_sequence")
+    if op == "seq_view":
+        back = [np.array([7], dtype=dt)] + rows[::-1]
+        big = RaggedArray(np.concatenate(back), [len(r) for r in back])
+        ra = big[:0:-1]
+    else:
+        ra = RaggedArray(flat.copy(), list(lens))
+    if any(l >= 2 for l in lens):
+        acc.nontrivial()
+    for i, name in enumerate(SEQ):
+        ref, call, lenient = _op(acc, name, ra, dt, lens)
+        try:
+            with np.errstate(all="ignore"):
+                refs = [ref(r) for r in rows]
+        except Exception:  # noqa: BLE001
+            continue
+        exp = ("T", (R([r[0] for r in refs]), R([r[1] for r in refs]))) if name == "unique_c" else R(refs)
+        obs = observe(call)
+        acc.trans()
+        acc.outcome((i, name, obs))
+        if is_refused(obs) and lenient:
+            continue
+        if obs != exp:
+            acc.fail("same-object-sequence", (i, name, exp), obs)
+            return
+    post = observe(lambda: ra)
+    if post != R(rows):
+        acc.fail("operand-modified", R(rows), post)
